@@ -104,7 +104,7 @@ def judge(actions, end_vt, res, out, crit_logs=0):
 
 class C10(BaseCheck):
   ID = 'C10'
-  RULE = ('case = fresh TimerQueue(resolution r in {0.01,0.1,0.25,0.5,1,0,None}; with the power-of-two resolutions some deadlines lie exactly on a tick) driven by 1-4 '
+  RULE = ('case = fresh TimerQueue (every 6th case: its schedule counter set just below 2^16 / 2^31 / 2^32 / 2^63, as after that many earlier actions) (resolution r in {0.01,0.1,0.25,0.5,1,0,None}; with the power-of-two resolutions some deadlines lie exactly on a tick) driven by 1-4 '
           'producer greenlets issuing Schedule/cancel/sleep ops at seeded virtual instants '
           '(incl. grid-aligned boundary class, past deadlines, deadlines minutes ahead with long quiet stretches, '
           'ties, cancel of head / of run '
@@ -116,7 +116,7 @@ class C10(BaseCheck):
              'scales.timer_queue:TimerQueue.Schedule')
   REQUIRED_ANCHORS = ANCHORS
   REQUIRED_CLASSES = ('new-head-while-sleeping', 'past-deadline', 'tie', 'cancel-head',
-                      'boundary', 'far-deadlines', 'deadline-exactly-on-tick', 'action-raises', 'action-blocks')
+                      'boundary', 'far-deadlines', 'deadline-exactly-on-tick', 'action-raises', 'action-blocks', 'long-schedule-history')
   ASSUMPTIONS = ('virtual clock: no timer lateness is injected (J=0), so lateness bounds are exact',
                  'rounded deadline computed in exact rationals; actions within 2us of a grid '
                  'point are exempt from the ordering clause only')
@@ -179,6 +179,12 @@ class C10(BaseCheck):
     res = rng.choice([0.01, 0.01, 0.01, 0.1, 1, None, 0, 0.25, 0.5])
     reff = res or 0.01
     q = TimerQueue(time_source=env.clock.time, resolution=res)
+    if idx % 6 == 4 and hasattr(q, '_seq'):
+      # a queue with a history: it has scheduled (and run) almost 2^16 / 2^31 / 2^32 / 2^63 actions before
+      q._seq = rng.choice([2 ** 16, 2 ** 31, 2 ** 32, 2 ** 63]) - rng.randint(1, 12)
+      self._long_history = True
+    else:
+      self._long_history = False
     boundary = rng.random() < 0.3
     # far deadlines: minutes ahead, with long quiet stretches in which nothing wakes the worker
     far = rng.random() < 0.2
@@ -306,7 +312,7 @@ class C10(BaseCheck):
         e['type'], e['value']), {'res': res}, e)
     nrun = sum(1 for a in actions if a['runs'])
     out.nontrivial = nrun > 0 and bool(races)
-    out.classes = sorted(races)
+    out.classes = sorted(races | ({'long-schedule-history'} if self._long_history else set()))
     out.extra = {'actions': len(actions), 'actions_run': nrun,
                  'cancels': sum(1 for a in actions if a['cancel_vt'] is not None),
                  'diag_seq_ne_peeked_logs': len(crit)}
